@@ -267,7 +267,7 @@ catalogue! {
     18 => [PackedC; 3], true, |_| true;
     19 => String, true, |_| true;
     20 => char, true, |_| true;
-    21 => bit_vec::BitVec, true, |b| b.len() <= b.storage().len() * 32;
+    21 => bit_vec::BitVec, true, |b| b.len() <= b.storage().len() * 32 && b.storage().len() <= (b.len() + 31) / 32 && (b.len() % 32 == 0 || b.storage().last().map_or(true, |w| w & !((1u32 << (b.len() % 32)) - 1) == 0));
     22 => bit_set::BitSet, true, |b| b.get_ref().len() <= b.get_ref().storage().len() * 32;
     23 => arrayvec::ArrayVec<u32, 4>, true, |a| a.len() <= a.capacity();
     24 => arrayvec::ArrayString<8>, true, |_| true;
